@@ -158,6 +158,16 @@ func c18Registries() []c18Reg {
 		_, err := w.Write(b)
 		return err
 	})
+	stub.AddFunc("text/x-quote", func(_ *minify.M, w io.Writer, r io.Reader, _ map[string]string) error {
+		b, _ := io.ReadAll(r)
+		for i, c := range b { // length preserving, but every quote it writes needs an escape in a URI
+			if c == '\'' {
+				b[i] = '"'
+			}
+		}
+		_, err := w.Write(b)
+		return err
+	})
 	stub.AddFunc("text/x-fail", func(_ *minify.M, w io.Writer, r io.Reader, _ map[string]string) error {
 		b, _ := io.ReadAll(r)
 		w.Write(b[:len(b)/2])
@@ -166,7 +176,7 @@ func c18Registries() []c18Reg {
 	return []c18Reg{{"empty", empty}, {"stub", stub}, {"real", newM(nil)}}
 }
 
-var c18Types = []string{"", "text/plain", "TEXT/Plain", "text/plainx", "text/plain-x", "text/html", "image/svg+xml", "text/css", "application/json", "application/javascript", "text/x-upper", "text/x-fail", "image/png", "application/octet-stream", "Text/X-Upper"}
+var c18Types = []string{"", "text/plain", "TEXT/Plain", "text/plainx", "text/plain-x", "text/html", "image/svg+xml", "text/css", "application/json", "application/javascript", "text/x-upper", "text/x-quote", "text/x-quote", "text/x-fail", "image/png", "application/octet-stream", "Text/X-Upper"}
 var c18Params = []string{"charset=us-ascii", "charset=US-ASCII", "CHARSET=us-ascii", "charset=utf-8", "charset=us-asciiz", "xcharset=us-ascii", "version=2.0", `name="A B"`, `Name="Annual Report"`, "q=1", `p="C:\\"`}
 
 func c18GenPayload(r *core.Rand, typ string) []byte {
@@ -177,6 +187,10 @@ func c18GenPayload(r *core.Rand, typ string) []byte {
 			key := lt
 			return []byte(r.Pick(smallInputs[key]))
 		}
+	}
+	if lt == "text/x-quote" {
+		// apostrophes (rewritten to quotes, which encode longer) and an ending that is or is not an escape
+		return []byte(r.Pick([]string{"alert('hi')", "it's", "'a','b','c'", "f('x')+g('y')", "plain"}) + r.Pick([]string{";", "#", "\"", "%", " ", "", "x", "<"}))
 	}
 	n := r.Intn(30)
 	if r.Chance(1, 10) {
